@@ -77,6 +77,10 @@ func loadWorld(repo string, patterns []string) (*World, error) {
 	w.allFuncs = ssautil.AllFunctions(prog)
 	for fn := range w.allFuncs {
 		if fn.Pkg == nil {
+			// instantiations of generic functions/methods: keyed in the origin's package
+			if o := fn.Origin(); o != nil && o.Pkg != nil && len(fn.Blocks) > 0 {
+				w.funcsByKey[o.Pkg.Pkg.Path()+"::"+fn.RelString(o.Pkg.Pkg)] = fn
+			}
 			continue
 		}
 		w.funcsByKey[fn.Pkg.Pkg.Path()+"::"+fn.RelString(fn.Pkg.Pkg)] = fn
@@ -172,6 +176,11 @@ func (w *World) contractFor(fn *ssa.Function) *Item {
 	}
 	f := fn
 	if o := fn.Origin(); o != nil {
+		if o.Pkg != nil {
+			if it := w.funcItems[o.Pkg.Pkg.Path()+"::"+fn.RelString(o.Pkg.Pkg)]; it != nil {
+				return it
+			}
+		}
 		f = o
 	}
 	if f.Pkg == nil {
